@@ -133,7 +133,17 @@ def with_context(n):
 
 
 def _terminating(stmts) -> bool:
-    return bool(stmts) and isinstance(stmts[-1], (ast.Return, ast.Raise, ast.Continue, ast.Break))
+    """The block cannot complete normally: it ends with return/raise/continue/break, or with an if/else (or a with) that does."""
+    if not stmts:
+        return False
+    last = stmts[-1]
+    if isinstance(last, (ast.Return, ast.Raise, ast.Continue, ast.Break)):
+        return True
+    if isinstance(last, ast.If):
+        return _terminating(last.body) and _terminating(last.orelse)
+    if isinstance(last, (ast.With, ast.AsyncWith)):
+        return _terminating(last.body)
+    return False
 
 
 def guards(n):
@@ -148,8 +158,10 @@ def guards(n):
             blk = getattr(a, fname, None)
             if isinstance(blk, list) and any(x is cur for x in blk):
                 for sib in blk[: next(i for i, x in enumerate(blk) if x is cur)]:
-                    if isinstance(sib, ast.If) and not sib.orelse and _terminating(sib.body):
+                    if isinstance(sib, ast.If) and _terminating(sib.body) and not _terminating(sib.orelse):
                         out.append((sib.test, False))
+                    elif isinstance(sib, ast.If) and sib.orelse and _terminating(sib.orelse) and not _terminating(sib.body):
+                        out.append((sib.test, True))
         if isinstance(a, (ast.FunctionDef, ast.AsyncFunctionDef, ast.Lambda)):
             break
         if isinstance(a, (ast.If, ast.While, ast.IfExp)):
